@@ -97,6 +97,19 @@ def run_case(case):
     except Exception as e:
         F('native-encode', 'leak', '%s: %s' % (harness.exc_sig(e), str(e)[:160]), harness.exc_sig(e))
         return fails
+    # what the native encoder hands out belongs to the caller: scribbling over one result (every list gets an element, every
+    # mapping a key) leaves the next conversion of the same value as it was
+    try:
+        import copy
+        keep = copy.deepcopy(py)
+        scribble(nenc.encode(obj))
+        again = nenc.encode(obj)
+        if again != keep:
+            F('native-encode', 'shared-state', 'after the caller changed an earlier result in place, encode(v) gives %s, before %s' % (
+                absval.short(again, 100), absval.short(keep, 100)))
+            py = keep
+    except Exception as e:
+        F('native-encode', 'leak', 'second conversion: %s: %s' % (harness.exc_sig(e), str(e)[:120]), harness.exc_sig(e))
     try:
         r = ndec.decode(py, asn1Spec=sch)
     except error.PyAsn1Error as e:
@@ -129,6 +142,17 @@ def run_case(case):
         elif not a.ok and a.status == 'leak':
             F(codec.lower() + '-pyvalue', 'leak', a.brief(), a.sig)
     return fails
+
+
+def scribble(py):
+    if isinstance(py, dict):
+        for v in list(py.values()):
+            scribble(v)
+        py['__scribble__'] = 1
+    elif isinstance(py, list):
+        for v in py:
+            scribble(v)
+        py.append('__scribble__')
 
 
 def respell(T, py):
